@@ -11,7 +11,8 @@ RULE = ("one list of operations (constructors on valid / edited strings of every
         "/root/.pyenv/versions and /venv's, PYTHONPATH=/repo; every result (acceptance, error class and message, scores, "
         "severities, vectors, sub-vectors, JSON items in order for the four option sets, extraction set, interactive and "
         "CLI stdout/exit) compared with the reference interpreter's; the reference is tied to the Lean model by the "
-        "other checks; distinct = distinct (interpreter, operation)")
+        "other checks; distinct = distinct (interpreter, operation)"
+        " + argparse spellings (clustered, attached, long, abbreviated), near-miss RH score texts, extraction result ORDER")
 ASSUMPTIONS = ["no theorem can quantify over interpreters: each interpreter is tied to the same model by correspondence"]
 EXPLANATION = ("Each interpreter is compared on the same operations with the reference interpreter, which the other checks tie to the Lean "
                "model; two interpreters that both correspond to the model agree, and all theorems transfer to each of them.")
